@@ -18,8 +18,8 @@ import searchlib
 PROPERTY = "C01"
 LEVEL = "proof"
 MANIFEST = {
-    "text": "Lean theorems over the search/sizing model for all candidate lists, sign patterns and configurations (feasible selection in all four search classes; no both-positive clamp after a feasible selection; |excess| <= c*tol at a Brent root). The model is replayed against recorded real design runs (trace, selection, outcome) and every returned design is re-simulated from fresh objects.",
-    "note": "thermal simulation = arbitrary oracle E (checked by C09-C11); scipy brentq = BrentSpec; Lipschitz constant and the consistency of the 3-height interpolated objective with the 1-height search value are hypotheses measured on every run; oracle (a) reuses the implementation's simulation code on fresh objects",
+    "text": "Lean theorems over the search/sizing model for all candidate lists, sign patterns and configurations (feasible selection in all four search classes; no both-positive clamp after a feasible selection; |excess| <= c*tol at a Brent root; GHEManager.find_design as its regenerated statement list: for every design method the returned object is the selected candidate, its temperatures are computed at its final height, the height is in the window and the excess there is <= c*tol; the searched fields get the requested flow). The model is replayed against recorded real design runs (trace, selection, outcome) and every returned design is re-simulated from fresh objects in a freshly spawned process (also after a sibling design in the same process, on re-used managers, near the window ends).",
+    "note": "thermal simulation = arbitrary oracle E (checked by C09-C11); scipy brentq = BrentSpec; Lipschitz constant and the consistency of the 3-height interpolated objective with the 1-height search value are hypotheses measured on every run; oracle (a) reuses the implementation's simulation code on fresh objects in a fresh process, with the fluid built independently of the package",
     "technique": "Lean 4 proof about the search/sizing model + trace-level correspondence with real runs + fresh re-simulation",
     "design_ref": "DESIGN.md §3 C01",
 }
